@@ -6,7 +6,9 @@ import AlgoVerif.Spec.C07
 /-!
 Line-protocol component for C07.
 
-Header: `comp=<algo> cmp=<asc|desc|mod3|diff|diff7|rdiff|rdiff7|mod3x5>` (the last five return
+Header: `comp=<algo> cmp=<asc|desc|mod3|diff|diff7|rdiff|rdiff7|mod3x5|lex> [ty=<elem|struct|ptr|slice|string>]`
+(`ty`: the Go element type the harness instantiates the generic sorts with — the Model is generic, elements print as `key:id`
+whatever carries them; `lex` compares key, then id). (`diff … mod3x5` return
 un-normalised values: `a-b`, `7*(a-b)`, `b-a`, `7*(b-a)`, `5*(a%3-b%3)`).  Comparison-sort elements are `key:id` (the comparator
 looks at the key only, so instability and permutation errors are visible in the output).
 Machine words are decimal (`int`: signed), strings are `x<hex>`.
@@ -52,6 +54,9 @@ def cmpOf (name : String) : Elem → Elem → Int :=
   else if name == "rdiff" then fun a b => b.1 - a.1
   else if name == "rdiff7" then fun a b => 7 * (b.1 - a.1)
   else if name == "mod3x5" then fun a b => (Int.tmod a.1 3 - Int.tmod b.1 3) * 5
+  -- lexicographic on (key, id): what `strings.Compare` / `slices.Compare` see when an element is carried as a
+  -- fixed-width string or as the slice `[]int{key, id}` (header `ty=string|slice`; the element type is the harness's affair)
+  else if name == "lex" then fun a b => if a.1 == b.1 then sgn a.2 b.2 else sgn a.1 b.1
   else fun a b => sgn a.1 b.1
 
 def parseElem (s : String) : Option Elem :=
